@@ -251,6 +251,10 @@ func Generate(r *rand.Rand, o GenOpts) (*Doc, map[string]int) {
 		}
 		perm := r.Perm(len(methods))
 		nm := 1 + r.Intn(3)
+		if len(p.Params) > 0 && r.Intn(4) == 0 {
+			nm = 0 // a path item that only has parameters: they are still references of the document
+			g.PosCount["pathItem:no-operations"]++
+		}
 		ms := make([]string, 0, nm)
 		for _, j := range perm[:nm] {
 			ms = append(ms, methods[j])
